@@ -18,7 +18,7 @@ func init() {
 			"C04-WHO only Valid and exist call the recursive walker, exist is reached only for the rules exist and required. Nil sub-objects are skipped silently (shared with C13). The recursion is the same function, so the inductive step is the whole argument for arbitrary depth.",
 		Assume:  []string{"acyclic object graphs (property's exclusion)"},
 		Trusted: []string{"go/types", "go/ssa"},
-		Run:     func(c *Ctx) { runC04(c); sharedDeclaredRules(c); runExportPred(c, "C04-EXPORT"); base(c, "STATE", "LOOP"); runToStrCases(c, "C04-PATHKEY"); runC04Strip(c, "C04-STRIP"); runFieldIdentity(c, "C04-FIELDID") },
+		Run:     func(c *Ctx) { runC04(c); sharedDeclaredRules(c); runExportPred(c, "C04-EXPORT"); base(c, "STATE", "LOOP"); runToStrCases(c, "C04-PATHKEY"); runC04Strip(c, "C04-STRIP"); runFieldIdentity(c, "C04-FIELDID"); runExemptType(c, "C04-EXEMPT") },
 	})
 }
 
